@@ -6,10 +6,10 @@ from Cryptodome.Cipher import AES, DES
 from Cryptodome.Hash import MD5
 
 ID = "C14"
-PROOF_MODULES = ["VncProofs.C14"]
+PROOF_MODULES = ["VncProofs.C14", "VncProofs.C14Conv"]
 THEOREMS = ["Vnc.C14_revbits", "Vnc.C14_key", "Vnc.C14_nonascii", "Vnc.C14_response", "Vnc.C14_ip_fp", "Vnc.C14_rounds_inverse", "Vnc.C14_f_length",
             "Vnc.C14_des_inverse", "Vnc.C14_powmod", "Vnc.C14_long_to_bytes_len", "Vnc.C14_long_to_bytes_value", "Vnc.C14_ard_len",
-            "Vnc.C14_ard_agree", "Vnc.C14_ard_recover", "Vnc.C14_cred_block"]
+            "Vnc.C14_ard_agree", "Vnc.C14_ard_recover", "Vnc.C14_cred_block", "Vnc.C14_ard_conversation_38"]
 TRUSTED = [
     "Lean 4.33 kernel; standard axioms only",
     "Cryptodome: DES is compared with the Lean DES of VncSpec/DES.lean (FIPS 46-3 tables, known-answer test in the kernel) on every run; AES-128-ECB and MD5 are abstract functions in the theorems (dec(enc(x)) = x, length preserving) and are used as they are by the reference server of the harness",
